@@ -74,6 +74,7 @@ type sim struct {
 	l    *evlog
 	mu   sync.Mutex
 	ch   [2][][]byte   // ch[x]: packets in flight from x to its peer
+	chT  [2][]time.Time // transmission instants of those packets
 	inb  [2]chan []byte // inbox of side x (capacity 1)
 	conn [2]*gbn.GoBackNConn
 	hsErr [2]error
@@ -119,6 +120,7 @@ func (s *sim) sendFunc(x int) func(ctx context.Context, b []byte) error {
 		c := append([]byte{}, b...)
 		s.mu.Lock()
 		s.ch[x] = append(s.ch[x], c)
+		s.chT[x] = append(s.chT[x], time.Now())
 		s.txCount[x]++
 		s.mu.Unlock()
 		s.l.ev("TX %d %s", x, hx(c))
@@ -233,6 +235,7 @@ func (s *sim) op(x int, what string) {
 	head := s.ch[x][0]
 	if what != "keep" {
 		s.ch[x] = s.ch[x][1:]
+		s.chT[x] = s.chT[x][1:]
 	}
 	s.mu.Unlock()
 	s.l.ev("CH %d %s", x, what)
@@ -242,10 +245,21 @@ func (s *sim) op(x int, what string) {
 	synctest.Wait()
 }
 
+// headAge: how long the packet at the head of channel x has been in flight.
+func (s *sim) headAge(x int) time.Duration {
+	s.mu.Lock()
+	defer s.mu.Unlock()
+	if len(s.chT[x]) == 0 {
+		return -1
+	}
+	return time.Since(s.chT[x][0])
+}
+
 // injectRaw puts arbitrary bytes at the tail of channel x -> peer (stale / hostile packets).
 func (s *sim) injectRaw(x int, b []byte) {
 	s.mu.Lock()
 	s.ch[x] = append(s.ch[x], append([]byte{}, b...))
+	s.chT[x] = append(s.chT[x], time.Now())
 	s.mu.Unlock()
 	s.l.ev("INJ %d %s", x, hx(b))
 }
